@@ -1,6 +1,7 @@
 """Explorer engine E2: explicit-state breadth-first search whose transition function is
 the real code.  A state is reached by replaying an operation list on freshly constructed
 library objects; its key is a canonical snapshot; an invariant is evaluated in every state."""
+import os
 import multiprocessing
 from collections import deque
 
@@ -109,6 +110,7 @@ def _inv(machine, st, hist):
 
 
 _MACHINES = None
+_PRELUDE_PID = None
 
 
 def _job(arg):
@@ -116,6 +118,17 @@ def _job(arg):
     import hashlib
     mi, hist = arg
     m = _MACHINES[mi]
+    global _PRELUDE_PID
+    try:
+        if _PRELUDE_PID != os.getpid():      # once per worker process
+            lib.legal_prelude()
+            _PRELUDE_PID = os.getpid()
+    except Exception as ex:  # noqa
+        if not core._raised_in_library(ex):
+            raise
+        v = _lib_raised(m, hist, ex)
+        v.family = m.name
+        return mi, hist, None, [v]
     st = _safe_build(m, hist)
     if isinstance(st, core.Viol):
         st.family = m.name
